@@ -35,6 +35,38 @@ func simpleProp(r *Rand) M {
 	}
 }
 
+// GenDeepSpec: a small specification dominated by deeply nested definitions (chains of object properties, 34..44 levels,
+// a default at every level): most of its validation is spent deep inside the default / example walkers.
+func GenDeepSpec(r *Rand) M {
+	chain := func(depth int, tag string) M {
+		cur := M{"type": "object", "properties": M{
+			"arr": M{"type": "array", "uniqueItems": true, "items": M{"type": "integer"}, "default": pick(r, []any{[]any{1, 2}, []any{1, 1}})},
+			"ex":  M{"type": "integer", "example": pick(r, []any{1, "notanint"})},
+		}}
+		for i := depth; i > 0; i-- {
+			cur = M{"type": "object", "properties": M{
+				fmt.Sprintf("%s%d", tag, i):  cur,
+				fmt.Sprintf("d%s%d", tag, i): M{"type": "integer", "default": pick(r, []any{1, 2, "bad"})},
+			}}
+		}
+		return cur
+	}
+	defs := M{}
+	var names []string
+	for i := 0; i < 2; i++ {
+		n := fmt.Sprintf("Deep%d", i)
+		defs[n] = chain(r.Range(34, 44), fmt.Sprintf("k%d_", i))
+		names = append(names, n)
+	}
+	return M{
+		"swagger": "2.0", "info": M{"title": "deep", "version": "1.0"},
+		"paths": M{"/deep": M{"post": M{"operationId": "deep",
+			"parameters": []any{M{"name": "body", "in": "body", "required": true, "schema": M{"$ref": "#/definitions/" + pick(r, names)}}},
+			"responses":  M{"200": M{"description": "ok", "schema": M{"$ref": "#/definitions/" + pick(r, names)}}}}}},
+		"definitions": defs,
+	}
+}
+
 // deepDocsPM: per-mille of generated specifications that carry a deeply nested definition (set by the workloads).
 var deepDocsPM = 30
 
@@ -75,8 +107,9 @@ func GenSpec(r *Rand, edits int) (M, []string) {
 			"ex":  M{"type": "integer", "example": pick(r, []any{1, "notanint"})},
 		}}
 		cur := leaf
-		for i := 0; i < depth; i++ {
-			cur = M{"type": "object", "properties": M{"n": cur}}
+		for i := depth; i > 0; i-- {
+			// a different member name at every level: the validator's path-based cycle heuristic stops at "x.n.n"
+			cur = M{"type": "object", "properties": M{fmt.Sprintf("k%d", i): cur}}
 		}
 		defs["Deep"] = cur
 		names = append(names, "Deep")
